@@ -330,6 +330,16 @@ def threads_shard(ctx, args):
 def run_shard(ctx, args):
     if args.get("mode") == "threads":
         return threads_shard(ctx, args)
+    try:
+        return _run_shard(ctx, args)
+    finally:
+        ctx.count("instances_built_from_a_stale_instance_object",
+                  wb.STALE_BUILT[0])
+        ctx.count("instances_built_from_a_buffer_overwritten_afterwards",
+                  wb.ALIAS_BUILT[0])
+
+
+def _run_shard(ctx, args):
     rng = ctx.rng
     _monitor(ctx)
     names = None
@@ -390,7 +400,7 @@ def run_shard(ctx, args):
             else:
                 # decoders never beat the bound: other instance classes
                 cls = str(rng.choice(["general", "forcedrot", "itembin",
-                                      "tiny", "shipped"]))
+                                      "tiny", "shipped", "count"]))
                 if cls == "shipped":
                     if names is None:
                         names = list(wb.shipped_names())
